@@ -414,7 +414,10 @@ def run_check(prop, tier, verif_seed, runs=None, workers=None):
             attempts.append((sc, [x for x in res0.violations if signature(x) == sig], res0.digest, 0, False))
             for scn, vs_, dg, steps, minimised in attempts:
                 pth = write_replay(prop, tier, verif_seed, scn, vs_[0], dg, steps, minimised)
-                p = _fresh([prop, "--replay", pth], hashseed=777, timeout=600)
+                # (an oracle that compares this interpreter with one started under another hash seed is
+                # relative to the hash seed of the run: its replay is verified under the same one)
+                hs = int(os.environ.get("PYTHONHASHSEED") or 0) if sig[0] in getattr(h, "HASHSEED_SENSITIVE", ()) else 777
+                p = _fresh([prop, "--replay", pth], hashseed=hs, timeout=600)
                 if p.returncode == 1 and "REPRODUCED" in p.stdout:
                     path, small, vv = pth, scn, vs_
                     break
